@@ -276,6 +276,13 @@ class GetMasked:
 # ---------------------------------------------------------------------------------------------------
 @contract
 class RegionDictRoundTrip:
+    # concrete lattices (conventions of rt/oracles_io.cartesian_region_dict_roundtrip): cells listed in an order that is not the
+    # sorted one, a single cell, a row
+    directed = staticmethod(lambda: [('cartesian_region_dict_roundtrip', dict(lattice=lat, probe_seed=1, n_probes=60, through_json=tj))
+                                     for tj in (False, True) for lat in (
+                                         {'lon0': '-0.5', 'lat0': '-0.5', 'dh': '0.5', 'cells': [[2, 2], [0, 0], [1, 0], [1, 1], [2, 1]]},
+                                         {'lon0': '0', 'lat0': '0', 'dh': '1', 'cells': [[0, 0]]},
+                                         {'lon0': '-125.4', 'lat0': '40.1', 'dh': '0.1', 'cells': [[5 - i, 0] for i in range(6)]})])
     qualname = 'lemma:C18:CartesianGrid2D.from_dict(to_dict(region)) rebuilds from the same origins in the same order'
     case = 'region with any number of cells; from_origins observed through a recording stub'
     properties = ('C18',)
